@@ -144,6 +144,22 @@ def run(ctx, prog, res):
                     found.append(flow.shape(cf, t["args"][1]))
         want = "Range{start: const:%s, end: const:%s}" % (lo, hi)
         r4.check(found == [want], {"fn": name, "window": found}, "C01.R4:window:%s" % name, "%s cuts spans with %s (expected %s)" % (name, found, want), lib.where_of(f))
+    # both day functions cut the same spans: what is cut is the projection of the whole time selector, in both
+    # (a span left out of one of the two loses its part before or after midnight)
+    cut_src = {}
+    for name in ("time_selector_intervals_at", "time_selector_intervals_at_next_day"):
+        f = prog.require_fn(TF + name)
+        srcs = []
+        for _, t in f.calls():
+            if len(t["args"]) == 2:
+                clo = flow.closure_of_operand(f, t["args"][1])
+                if clo in prog.fns and any(flow.call_name(t2).endswith("range_intersection") for _, t2 in prog.fns[clo].calls()):
+                    srcs.append(flow.shape(f, t["args"][0], depth=8))
+        cut_src[name] = srcs
+    whole = [s_ for v in cut_src.values() for s_ in v]
+    ok = all(len(v) == 1 for v in cut_src.values()) and len(set(whole)) == 1 and re.fullmatch(r"(?:[\w:<> ]*::)?as_naive\(p2, p1, p3\)", whole[0]) is not None
+    r4.check(ok, {"fns": sorted(cut_src), "spans_cut": whole[:2], "same_in_both": True}, "C01.R4:same-spans",
+             "today's part and the spill into the next day are not cut from the same spans - the projection `as_naive(ctx, date)` of the whole time selector: %s (a span skipped by one of the two loses its minutes on that side of midnight)" % cut_src, lib.where_of(f))
     f = prog.require_fn(TF + "time_selector_intervals_at_next_day")
     shifts = []
     for c in prog.closures(f.id):
